@@ -169,3 +169,58 @@ def _abort_record(method, am, ak, pol, t1, stamp1) -> Dict[str, object]:
         kitpaths.cleanup(root)
     return {"raised": raised, "run_status_complete": man.get("status") == "complete", "members": members,
             "stores_unchanged": before == after, "second_run_ok": second_ok, "second_run_own_dir": own}
+
+
+# ------------------------------------------------------------------ O2 an abort raised outside the match components
+OUT_MEMBERS = ['~id:m0~ $[*][ yes() ]', '~id:m1~ $[*][ @x = line_number() collect(0, 1) ]']
+
+
+def _short_data(k):
+    rows = ["h1,h2"]
+    for i in range(1, 6):
+        rows.append("a%d" % i if i == k else "a%d,b%d" % (i, i))
+    return "\n".join(rows) + "\n"
+
+
+@ob(
+    "C18",
+    "O2-abort-outside-match",
+    pre=["{LO} <= k <= {HI}"],
+    post="_ == ''",
+    bound="group of 2 members over a 6-record file whose line k (symbolic 0..4; none for k = 0; the last line is never the short one: an abort on the last line is the known finding of O1) lacks the second cell; the second "
+    "member limits collection to headers 0 and 1, so CsvPath.next() itself raises on line k - outside any match component, before "
+    "anything of that member's data.csv is on disk; serial run methods (shards): the exception reaches the caller, the first member "
+    "is complete, the aborted member's files are readable, its errors.json names line k and its manifest says completed false",
+    outside="breadth-first methods; other faults raised outside match components",
+    encodes=ENC + ["csvpath/csvpath.py:CsvPath.next/limit_collection", "csvpath/util/error.py:ErrorHandler.__init__ (error collector)"],
+    tiers={"quick": {"timeout": 900, "K": {"LO": 0, "HI": 4}, "shards": product(method=["collect_paths", "fast_forward_paths", "next_paths"])}},
+)
+def abort_outside_match(method: str, k: int) -> str:
+    data = _short_data(k)
+    hit = [i for i in range(1, 6) if i == k]  # traced: k becomes a concrete line along this path
+    fired = len(hit) == 1
+    k = hit[0] if fired else 0
+    with NoTracing():
+        root, cs = kitpaths.env({"g": OUT_MEMBERS}, policy="raise, collect, print", data=data)
+    raised = False
+    try:
+        _run(cs, method)
+    except Exception:
+        raised = True
+    problems = []
+    with NoTracing():
+        runs = sorted(os.listdir("archive/g"))
+        man, members = _observe(os.path.join("archive/g", runs[-1]))
+        if raised != fired:
+            problems.append(f"raised={raised}, expected {fired}")
+        m0, m1 = members.get("m0"), members.get("m1")
+        if m0 is None or not m0["readable"] or m0["completed"] is not True or m0["error_lines"]:
+            problems.append(f"first member: {m0}")
+        if m1 is None or not m1["readable"]:
+            problems.append(f"aborted member not readable: {m1}")
+        elif fired and (m1["error_lines"] != [k] or m1["completed"] is not False):
+            problems.append(f"aborted member: {m1}, expected an error on line {k} and completed false")
+        elif not fired and (m1["error_lines"] or m1["completed"] is not True):
+            problems.append(f"second member without abort: {m1}")
+        kitpaths.cleanup(root)
+    return "; ".join(problems)
